@@ -187,6 +187,19 @@ impl UnionArray {
             ));
         }
 
+        // The child arrays must have the data types the fields declare
+        // (the names and metadata of nested fields are not compared).
+        for ((_, field), child) in fields.iter().zip(children.iter()) {
+            if !field.data_type().equals_datatype(child.data_type()) {
+                return Err(ArrowError::InvalidArgumentError(format!(
+                    "Union field \"{}\" has data type {} but its child array has data type {}",
+                    field.name(),
+                    field.data_type(),
+                    child.data_type()
+                )));
+            }
+        }
+
         if let Some(offsets) = &offsets {
             // There must be an offset value for every type id value.
             if offsets.len() != type_ids.len() {
